@@ -50,10 +50,10 @@ fn op_str(o: &Op) -> String {
     }
 }
 
-struct Shadow {
-    /// (key, host) -> (id, size, mime ext, stored at)
-    latest: HashMap<(u8, u8), (u64, usize, &'static str, Instant)>,
-}
+const KEYS: [&str; 3] = ["/k0", "/k1", "/k2"];
+
+/// latest store per (key, host): (id, bytes, mime extension, stored at)
+type ShadowEntry = Option<(u64, Vec<u8>, &'static str, Instant)>;
 
 fn sizes_for(limit: usize) -> [usize; 3] {
     [0, (limit + 1) / 2, limit]
@@ -62,41 +62,48 @@ fn sizes_for(limit: usize) -> [usize; 3] {
 /// Runs one sequence on a fresh cache under the shadow-map monitor. Returns a violation (sig, what).
 fn run_seq(ops: &[Op], limit: usize, time: usize, stats: &mut (u64, u64, u64)) -> Option<(String, String)> {
     let mut cache = mk_cache(limit, time);
-    let mut sh = Shadow { latest: HashMap::new() };
+    let mut sh: [ShadowEntry; 6] = Default::default();
     let sizes = sizes_for(limit);
     let mut next_id = 1u64;
     for (step, op) in ops.iter().enumerate() {
-        let mut just_set: Option<(u8, u8)> = None;
+        let mut just_set: Option<usize> = None;
         match *op {
             Op::Set { key, host, size_class } => {
                 let size = sizes[size_class as usize];
                 let id = next_id;
                 next_id += 1;
                 let ext = MIMES[(id % 4) as usize];
-                let r = catch_unwind(AssertUnwindSafe(|| cache.set(&format!("/k{}", key), host as usize, value_for(id, size), MimeType::from_extension(ext))));
+                let val = value_for(id, size);
+                let r = catch_unwind(AssertUnwindSafe(|| cache.set(KEYS[key as usize], host as usize, val.clone(), MimeType::from_extension(ext))));
                 if let Err(p) = r {
                     return Some(("C16/panic".into(), format!("step {} {} panicked: {}", step, op_str(op), panic_msg(&*p))));
                 }
-                sh.latest.insert((key, host), (id, size, ext, Instant::now()));
-                just_set = Some((key, host));
+                let slot = key as usize * 2 + host as usize;
+                sh[slot] = Some((id, val, ext, Instant::now()));
+                just_set = Some(slot);
                 stats.0 += 1;
             }
             Op::Get { key, host } => {
                 stats.1 += 1;
                 // judged by the probe below (which covers this key as well when it was ever stored)
-                let _ = cache.get(&format!("/k{}", key), host as usize).map(|i| i.data.len());
+                let _ = cache.get(KEYS[key as usize], host as usize).map(|i| i.data.len());
             }
         }
         // probe every key ever stored
         let mut retrievable = 0usize;
-        for ((k, h), (id, size, ext, at)) in sh.latest.iter() {
+        for (slot, e) in sh.iter().enumerate() {
+            let (id, val, ext, at) = match e {
+                Some(x) => x,
+                None => continue,
+            };
+            let (k, h) = (slot / 2, slot % 2);
             stats.2 += 1;
-            match cache.get(&format!("/k{}", k), *h as usize) {
+            match cache.get(KEYS[k], h) {
                 Some(item) => {
-                    if item.data != value_for(*id, *size) || item.mime_type.to_string() != MimeType::from_extension(ext).to_string() {
+                    if item.data != *val || std::mem::discriminant(&item.mime_type) != std::mem::discriminant(&MimeType::from_extension(ext)) {
                         // whose data is it?
-                        let other = sh.latest.iter().find(|(_, v)| item.data == value_for(v.0, v.1) && v.1 > 0).map(|(kk, _)| format!("the latest value of (k{},h{})", kk.0, kk.1)).unwrap_or_else(|| "an older or foreign value".into());
-                        return Some(("C16/wrong-data".into(), format!("after step {} {}: get(k{},h{}) returned {} ({} bytes, {}) instead of the latest store (id {}, {} bytes, {})", step, op_str(op), k, h, other, item.data.len(), item.mime_type.to_string(), id, size, ext)));
+                        let other = sh.iter().enumerate().find(|(_, v)| v.as_ref().map(|v| v.1 == item.data && !v.1.is_empty()).unwrap_or(false)).map(|(s2, _)| format!("the latest value of (k{},h{})", s2 / 2, s2 % 2)).unwrap_or_else(|| "an older or foreign value".into());
+                        return Some(("C16/wrong-data".into(), format!("after step {} {}: get(k{},h{}) returned {} ({} bytes, {}) instead of the latest store (id {}, {} bytes, {})", step, op_str(op), k, h, other, item.data.len(), item.mime_type.to_string(), id, val.len(), ext)));
                     }
                     if at.elapsed() >= Duration::from_secs(time as u64 + 1) + Duration::from_millis(50) {
                         return Some(("C16/stale-hit".into(), format!("get(k{},h{}) returned data {} ms old with time limit {} s", k, h, at.elapsed().as_millis(), time)));
@@ -104,8 +111,8 @@ fn run_seq(ops: &[Op], limit: usize, time: usize, stats: &mut (u64, u64, u64)) -
                     retrievable += item.data.len();
                 }
                 None => {
-                    if just_set == Some((*k, *h)) && time >= 1 && *size <= limit {
-                        return Some(("C16/not-retrievable-after-set".into(), format!("after step {} {}: the item just stored ({} bytes <= limit {}) is not retrievable", step, op_str(op), size, limit)));
+                    if just_set == Some(slot) && time >= 1 && val.len() <= limit {
+                        return Some(("C16/not-retrievable-after-set".into(), format!("after step {} {}: the item just stored ({} bytes <= limit {}) is not retrievable", step, op_str(op), val.len(), limit)));
                     }
                 }
             }
@@ -392,7 +399,8 @@ pub fn main(args: &Args) {
     }
     let thorough = args.thorough();
     let maxlen = if thorough { 5 } else { 4 };
-    let limits = [0usize, 1, 3, 65536];
+    // 64 KiB values are expensive to build: the largest limit is applied to every 61st sequence only
+    let limits = [0usize, 1, 3, 64, 65536];
     let times = [0usize, 1, 60];
     let work2 = work.clone();
     let reports = par(ncpu(), move |shard, nsh| {
@@ -412,8 +420,12 @@ pub fn main(args: &Args) {
                 x /= k;
             }
             for limit in limits {
+                if limit == 65536 && code % 61 != 0 {
+                    continue;
+                }
                 for time in times {
                     r.eval();
+                    r.count("exhaustive_sequences", 1);
                     if let Some((sig, what)) = run_seq(&seq, limit, time, &mut stats) {
                         r.violation(&sig, what, seq_json(&seq, limit, time), vec!["c16".into(), "--ops".into(), encode_ops(&seq), "--limit".into(), limit.to_string(), "--time".into(), time.to_string()]);
                     }
@@ -427,7 +439,6 @@ pub fn main(args: &Args) {
             }
             code += nsh;
         }
-        r.count("exhaustive_sequences", ((total - shard + nsh - 1) / nsh * limits.len() * times.len()) as u64);
         // (b) random long sequences over 32 keys (2 hosts), sizes 0..limit
         let mut rng = Rng::derive(seed, 0x1600 + shard as u64);
         for _ in 0..(if thorough { 4000 } else { 300 }) / nsh + 1 {
@@ -497,6 +508,6 @@ pub fn main(args: &Args) {
         r
     });
     let total = Report::merge_all(reports);
-    let rule = format!("(a) every operation sequence of length {} over 24 operations (set x 3 keys x 2 hosts x 3 sizes {{0, limit/2, limit}}, get x 3 keys x 2 hosts) for size limits {{0,1,3,64 KiB}} x time limits {{0,1,60}}, probing every key ever stored after every operation (so every shorter sequence is covered as a prefix); (b) random sequences of 100..2000 operations over 32 keys x 2 hosts; (c) 1..8 threads through RwLock<Cache> as the handlers use it, unique values, per-key interval check; (d) file_handler/directory_handler with a cache-enabled AppState over files rewritten between requests, with real sleeps past the time limit. non-trivial = at least two stores; distinct = distinct sequences / histories", maxlen);
+    let rule = format!("(a) every operation sequence of length {} over 24 operations (set x 3 keys x 2 hosts x 3 sizes {{0, limit/2, limit}}, get x 3 keys x 2 hosts) for size limits {{0,1,3,64}} (and 64 KiB on every 61st sequence) x time limits {{0,1,60}}, probing every key ever stored after every operation (so every shorter sequence is covered as a prefix); (b) random sequences of 100..2000 operations over 32 keys x 2 hosts; (c) 1..8 threads through RwLock<Cache> as the handlers use it, unique values, per-key interval check; (d) file_handler/directory_handler with a cache-enabled AppState over files rewritten between requests, with real sleeps past the time limit. non-trivial = at least two stores; distinct = distinct sequences / histories", maxlen);
     total.write(out, &rule, Some(true), &["a hit's real age is bounded by time limit + 1 s (the cache clock has one-second resolution)", "with time limit 0 an item just stored may or may not be retrievable (the two clauses coincide only at age 0)", "exhaustive refers to part (a)", "stores larger than the size limit are not generated (the handlers never do that and the property quantifies sizes from 0 to the limit)"]);
 }
